@@ -50,6 +50,97 @@ CLAIMS["C20"] = (
     "Trusted: Rocq kernel; the harness; the fake object tracker + JSON round trip standing in for the API server; listers refreshed between, not during, synchronizations; one namespace; "
     "oracles for time.ParseDuration / IsValidIP; the key-usage table is transcribed.", "DESIGN.md 7 C20")
 
+CLAIMS["C07"] = (
+    "Rocq theorems for all strings about an executable model of the NGINX tokenizer (DFA from ngx_conf_read_token), block parser and the identifier schemes: verified well-formedness "
+    "checker, separator-injectivity of the upstream/zone namers, refutations with witnesses for the '-'-separated schemes and the Ingress path validator; the decidable specification "
+    "(well-formed, arity-legal, duplicate-free) evaluated by vm_compute on the complete file sets the real Configuration + Configurator + templates produce; namer/validator models compared with the Go functions each run",
+    "Machine-checked proof (no axioms) that the checker wf_conf accepts only declaratively well-formed NGINX configuration, that concatenation with a separator foreign to the components is injective and hence "
+    "VS/VSR/TS upstream, rate-limit-zone and match names of DNS-named resources never collide, and - with witnesses reproduced on the real code - that the Ingress upstream name, VariableNamer and minion "
+    "login-location schemes are not injective and the Ingress path validator admits paths that are not one bare word. The universally quantified property is false of the code (known findings); on every run it "
+    "is decided on the real output of generated accepted resource sets by the verified checker.",
+    "Partial: the lexer model and arity table are hand-written from NGINX's source/documentation and cannot be differentially tested (no nginx binary); semantic nginx -t checks beyond lexing/arity/numeric server "
+    "params/uniqueness are not modelled; the Go glue between accepted resources and rendered bytes is exercised (S on real output), not proved; snippets, App Protect and OIDC are not generated.",
+    "DESIGN.md 7 C07")
+CLAIMS["C09"] = (
+    "Rocq theorems for all permutations of map bindings (oracle model of Go range, proved complete) about the consumer of every map-range site; a go/types translator regenerates the site inventory from source and "
+    "the coverage is re-proved on every run; a correspondence harness renders fixtures through the real Configurator, templates and LocalManager 60x in 3 processes",
+    "Machine-checked proof (no axioms): a Go map range is modelled as an arbitrary permutation; sort-on-distinct-keys and idempotent commutative map insertion are permutation-invariant and append is not. Every one of "
+    "the 23 inventoried sites is deterministic, deterministic under a named hypothesis, or refuted; the three refuted sites that reached generated files (F13, F14) were reproduced on the real code and repaired by fix: commits.",
+    "Trusted: the translator's completeness and classification; the hand-written site models (tied by the unit family and by what the translator reports); Go semantics for code without map ranges, goroutines or clocks; "
+    "text/template's sorted iteration over maps. Map ranges outside internal/configs, version1, version2 are only exercised.", "DESIGN.md 7 C09")
+CLAIMS["C10"] = (
+    "Rocq theorems over all histories of Configurator operations and restarts of an executable model of the file-creating/deleting code (refinement disk = image of the served set under injectivity; naming lemmas over all "
+    "strings / DNS-1123 names); tied by a correspondence harness driving the real Configurator, templates and LocalManager file operations on a temporary root; decidable one-to-one check on the real listings",
+    "Machine-checked proof (no axioms): for every operation history over DNS-legal names without colliding Ingress pairs conf.d and stream-conf.d contain exactly one file per served resource with its latest content; a delete "
+    "removes its file and nothing else; the same across restarts when nothing was deleted while down; the passthrough map is exact when no passthrough TransportServer is downgraded. Refuted with witnesses on model and real "
+    "code: Ingress name injectivity (F08), restart after a delete while down (F10), stale passthrough host (F33).",
+    "Trusted: Rocq kernel; the harness incl. its transcription of the main.go start-up sequence (guarded by a syntactic census); emptyDir surviving a container restart. Assumed: distinct hosts of served passthrough TransportServers "
+    "(C02); one object per kind/namespace/name. Not modelled: filesystem failures.", "DESIGN.md 7 C10")
+CLAIMS["C11"] = (
+    "Rocq invariants over all operation histories of a model of LocalSecretStore + Configurator-as-SecretFileManager + LocalManager secret files, validity and derived bytes as universally quantified oracles; tied by a "
+    "correspondence harness on the real store/Configurator/LocalManager with directory listings after every operation",
+    "Machine-checked proof (no axioms) that after every admissible history every file in the secrets directory is the derivation of the current, valid, asked-for version of some Secret, that per Secret the directory holds "
+    "exactly that derivation or nothing when keys have disjoint file names (proved for dash-free namespaces), that files vanish on invalidation/deletion, and that references report an error exactly when no valid version exists. "
+    "ns-name injectivity, CA-file removal and type change are refuted with witnesses replayed on the real code (F09, F34-F36).",
+    "Trusted: Rocq kernel; harness; ValidateSecret verdict as oracle (crypto not modelled); content compared by hash prefix. Hypotheses: no '/' in names, Secret.type immutable while it exists, no CA secret (F34). Not modelled: crash "
+    "between temp write and rename; special secrets (default, wildcard, license, mgmt, dhparam).", "DESIGN.md 7 C11")
+CLAIMS["C12"] = (
+    "Rocq theorems over all operation/sync histories and all fault placements (oracle functions nat->bool) of a model of the Configurator reload gate and of LoadBalancerController.sync batch logic; tied by a correspondence harness "
+    "running the real Configurator and real lbc.sync over a recording nginx.Manager; decidable spec evaluated on the implementation's own Manager log",
+    "Machine-checked proof (no axioms): held-back window, applied-when-enabled, batch-end (if half) and failure propagation proved with explicit restrictions; the only-if half, the weight-update exception and batch/endpoints "
+    "failure reporting are refuted with witnesses replayed on the real code (F15, F16a-d).",
+    "Trusted: Rocq kernel; the recording Manager; the harness's name/identity formulas. Not modelled: secrets, App Protect files, DH param, SPIFFE certs, the TLS-passthrough map; template errors are not injected; nginx is not run.",
+    "DESIGN.md 7 C12")
+CLAIMS["C14"] = (
+    "Rocq theorems for all clusters (unbounded lists, any pod order) about an executable model of endpoint resolution; tied by correspondence on the real getEndpointsFor*/create*Ex/generators and by the decidable specification "
+    "evaluated on the implementation's outputs",
+    "Machine-checked proof (no axioms) of by-number exactness, NoDup, IPv6 bracketing, nothing foreign/unready, sub-selector, cluster-IP, ExternalName, placeholder/never-disappears; the by-name meaning of named target ports, "
+    "`each once` without the functional-ref premise and the unnamed-port match are refuted with witnesses reproduced on the real code (F18, F40-F42); F17 was repaired.",
+    "Trusted: Rocq kernel; harness and hooks; label matching is modelled; the nginx templates are not executed (observable is the generated upstream's server entries).", "DESIGN.md 7 C14")
+CLAIMS["C15"] = (
+    "Rocq theorems (structural induction over resource skeletons with unbounded lists) about a model of the forward traversal (create*Ex) and of the backward traversal (reference checkers, second hops, endpoints filter, event "
+    "dispatch); tied by a correspondence harness on the real createExtendedResources, FindResourcesFor*, informer handlers and lbc.sync, plus a reflection-based field inventory",
+    "Machine-checked proof (no axioms) that every dependency the model consults, in any position of any resource and for any cluster, is mapped back by the reverse path of its kind and reached by every add/update/delete event, "
+    "except positions refuted by concrete witnesses (F19b EndpointSlice delete, F19c backup endpoints; F19a repaired). The decidable specification is evaluated on the implementation's own outputs at two levels.",
+    "Trusted: Rocq kernel; harness and hooks; the harness's notion of dependency; fake SecretStore; fake appprotect.Configuration at the create*Ex level. Not modelled: pods, DoS policy/log-conf hops, user signatures, informer resync.",
+    "DESIGN.md 7 C15")
+CLAIMS["C18"] = (
+    "Rocq theorems (lockset soundness for all programs and interleavings under mutex/RW-lock semantics) + access table regenerated from the Go source by a go/types translator and checked by vm_compute + the real controller run "
+    "under the race detector",
+    "Machine-checked proof (no axioms) that the lock discipline on struct fields implies absence of data races in every interleaving. The instance for the controller is a computed obligation over the regenerated table; it holds only "
+    "modulo the known conflict edges (F20a-h), many exhibited as real data races; the harness also exhibits the fatal concurrent-map crash (F20z).",
+    "Partial: lock discipline on the fields of Configurator / Configuration / LocalSecretStore / LoadBalancerController. The translator and the entry list are trusted, cross-checked by the race detector. Pointer-published objects, "
+    "aliasing, start-up code and SPIFFE driving are outside.", "DESIGN.md 7 C18")
+CLAIMS["C19"] = (
+    "Rocq proof of a state-equality invariant over all event histories (incremental flags = from-scratch specification), correspondence + decidable spec on every step against the real ConfigurationImpl / DoS Configuration, "
+    "two refutations with witnesses replayed on the real code",
+    "Machine-checked proof (no axioms): for every history (distinct UIDs of coexisting signatures) the whole state equals the state rebuilt from the current objects, hence order independence; exactly one in-force signature per tag; "
+    "every usability flip is reported. The property fails in two places, refuted with witnesses: F21 (tag-only requirement vs revisionDatetime) and F37 (DeleteUserSig of an absent key reports no signatures).",
+    "Trusted: Rocq kernel; harness; validator verdicts as oracles from the real validators; map iteration modelled in key order with returned lists compared as sets.", "DESIGN.md 7 C19")
+
+CLAIMS["C04"] = (
+    "Rocq theorems over all object sets / route lists of the composition functions (routes attached = referenced, existing, reference-checked routes; minions = stored minions of the host; composition a function "
+    "of the object set) + the declarative composition (incl. per-path least claimant, only-owner-composes) evaluated in Rocq on the implementation's GetResources() after every event",
+    "Machine-checked proof (no axioms) that the route list of a VirtualServer is exactly the referenced, existing routes passing the per-reference check (whose meaning is proved), that the minions rendered with a master are "
+    "exactly the stored minions of its host, and that composition depends only on the current object set; per-path arbitration among minions and only-the-owner-composes are decided by the declarative specification evaluated "
+    "on the real resources of every generated history (theorem for the per-path holder not yet proved: partial). One genuine defect (minion listing a path twice) repaired; F12 (route attached twice) is a known finding.",
+    ARB_NOTE + " The full VirtualServerRoute validator is an oracle; its per-reference part is modelled.", "DESIGN.md 7 C04")
+CLAIMS["C08"] = (
+    "Rocq theorems over unbounded policy-reference lists and all dependency states of an executable model of generatePolicies / add*Config / getPolicies / policy inheritance / generateSSLConfig / addSSLConfig / Ingress JWT and "
+    "basic auth; tied by a correspondence harness enumerating the whole kind x scope x failure mode x position x edition product through the real controller Ex constructors, Configurator and templates; a decidable fail-closed "
+    "predicate evaluated on the parsed real output",
+    "Machine-checked proof (no axioms): every scope with an unusable reference that no earlier same-kind policy shadows gets the error return and nothing else; an unusable named TLS Secret gives reject-handshake and no certificate; "
+    "Ingress auth is configured in every Secret state. The unrestricted statement is refuted with a witness reproduced on the real code (F80a-f). The finite product is enumerated exhaustively on the real code each run.",
+    "Trusted: NGINX semantics behind the predicate (rewrite-phase return pre-empts proxy_pass; ssl_reject_handshake); the hand-written lexer/parser model; hooks. The template's position of `return` is checked on real output each run, "
+    "not proved. Validators, Secret validation, App Protect and bundle existence are oracles. TransportServer TLS out of scope.", "DESIGN.md 7 C08")
+CLAIMS["C16"] = (
+    "Two-run non-interference check on the real Configuration (history vs. history with every foreign-class event replaced by a deletion) evaluated in Rocq, class predicate specification, silent-removal specification; "
+    "Rocq model tied by correspondence; theorem: object sets ignore foreign-class objects for every history",
+    "The decidable non-interference, silent-removal and class-precedence specifications are evaluated by the Rocq kernel on the real outputs of every generated history and its erasure; machine-checked so far: the stored object "
+    "sets of every reachable state contain no foreign-class object (last-write theorem). The two-history theorem over all histories is stated in DESIGN.md and not yet proved (partial). F04 (delete change keeps warnings on class "
+    "change => Rejected report on a foreign object) is a known finding.",
+    ARB_NOTE + " Events and status writes are taken to be a function of the returned changes/problems; Policies' class filter is covered by C08.", "DESIGN.md 7 C16")
+
 NOT_YET = {}
 
 
